@@ -323,8 +323,16 @@ func Driver(root string, p *Prop, tier string, seed int64) int {
 	for k, m := range distinct {
 		dcount[k] = len(m)
 	}
+	evaluations := cases
+	if p.EvalCounters != nil { // properties whose cases bundle many executions name the counters that count them
+		evaluations = 0
+		for _, k := range p.EvalCounters {
+			evaluations += counters[k]
+		}
+	}
 	cov := map[string]any{
-		"evaluations":         cases,
+		"evaluations":         evaluations,
+		"cases":               cases,
 		"distinct_nontrivial": len(distinct["nontrivial"]),
 		"rule":                p.Rule,
 		"samples":             samples,
